@@ -624,7 +624,7 @@ def run(tier, seed):
                               "unexplained": bool(f & 128), "failed_clauses": [CLAUSE_BITS[b] for b in CLAUSE_BITS if cl & b]})
                     fh.write(json.dumps(d) + "\n")
         if real_mon:
-            j, f, cl = min(real_mon, key=lambda x: (bin(x[2]).count("1"), bin(x[1] & 127).count("1"), len(reqs[x[0]]["raw"])))
+            j, f, cl = min(real_mon, key=lambda x: (bin(x[2]).count("1"), bin(x[1] & 127).count("1"), reqs[x[0]]["id"]))
             payload = readable(reqs[j], robs[j])
             payload.update({"property": PROP, "what": "monitor false on an implementation trace", "seed": seed, "tier": tier,
                             "failed_clauses": [CLAUSE_BITS[b] for b in CLAUSE_BITS if cl & b],
